@@ -18,6 +18,8 @@ import (
 	"go/token"
 	"go/types"
 	"os"
+	"sort"
+	"sync"
 	"runtime"
 	"slices"
 	"strings"
@@ -216,6 +218,7 @@ func (in *interpreter) truth(c value) bool {
 		if c.Op == OpConst {
 			return c.K != 0
 		}
+		in.profDecision("branch")
 		return in.needPath().Branch(c)
 	}
 	panic(fmt.Sprintf("truth: unexpected %T", c))
@@ -232,6 +235,7 @@ func (in *interpreter) needPath() *Path {
 // enumerating feasible values when symbolic.
 func (in *interpreter) concreteInt(t types.Type, x value) int64 {
 	if tm, ok := x.(*Term); ok {
+		in.profDecision("concretize")
 		v := in.needPath().Concretize(tm)
 		if isSignedType(t) {
 			return sext64(v, tm.W)
@@ -671,6 +675,7 @@ func runFrame(fr *frame) {
 				panic(engineAbort{"budget", fmt.Sprintf("instruction budget %d exhausted in %s", in.stepLimit, fr.fn)})
 			}
 			fr.curInstr = instr
+			in.curFrame = fr
 			if in.trace {
 				if v, ok := instr.(ssa.Value); ok {
 					fmt.Fprintln(os.Stderr, "\t", v.Name(), "=", instr)
@@ -893,5 +898,45 @@ func (in *interpreter) ensureInit(pkg *ssa.Package) {
 	}
 	for fr.block != nil {
 		runFrame(fr)
+	}
+}
+
+// decision-site profile (VERIF_FORKPROF=1): how often each source position asks for a symbolic decision.
+var (
+	forkProfOn = os.Getenv("VERIF_FORKPROF") != ""
+	forkProfMu sync.Mutex
+	forkProf   = map[string]int{}
+)
+
+func (in *interpreter) profDecision(kind string) {
+	if !forkProfOn || in.curFrame == nil || in.curFrame.curInstr == nil {
+		return
+	}
+	fr := in.curFrame
+	key := kind + " " + fr.fn.String() + " " + in.prog.Fset.Position(fr.curInstr.Pos()).String()
+	forkProfMu.Lock()
+	forkProf[key]++
+	forkProfMu.Unlock()
+}
+
+// DumpForkProfile prints the decision-site profile to stderr.
+func DumpForkProfile() {
+	if !forkProfOn {
+		return
+	}
+	type kv struct {
+		k string
+		n int
+	}
+	var l []kv
+	for k, n := range forkProf {
+		l = append(l, kv{k, n})
+	}
+	sort.Slice(l, func(i, j int) bool { return l[i].n > l[j].n })
+	for i, e := range l {
+		if i >= 40 {
+			break
+		}
+		fmt.Fprintf(os.Stderr, "FORKPROF %8d %s\n", e.n, e.k)
 	}
 }
